@@ -6,12 +6,12 @@ import (
 	"sort"
 	"time"
 
-	"github.com/go-logr/logr"
 	"k8s.io/apimachinery/pkg/runtime"
 	"k8s.io/client-go/discovery"
 	"k8s.io/client-go/dynamic"
 	"k8s.io/client-go/rest"
 	"k8s.io/client-go/tools/cache"
+	"github.com/go-logr/logr/funcr"
 	"k8s.io/client-go/tools/record"
 
 	mcclientset "metacontroller/pkg/client/generated/clientset/internalclientset"
@@ -24,7 +24,9 @@ import (
 )
 
 func init() {
-	logging.Logger = logr.Discard()
+	// every verbosity level is ON (rendered and dropped), so that code guarded by Logger.V(n).Enabled() -- the diff log of
+	// updateChildren, the request/response log of the webhook executor -- runs in every replay
+	logging.Logger = funcr.New(func(prefix, args string) {}, funcr.Options{Verbosity: 10})
 }
 
 // NopRecorder is a record.EventRecorder that drops everything (the stock FakeRecorder
